@@ -38,6 +38,7 @@ BREAKING = [
  ("C11-F5-reverted", ["C11"], "kernel/multi_aes/multi_buffergroup.cpp", "    if (padding > 16)\n      padding = 0;", "    if (padding > 160)\n      padding = 0;"),
  ("C11-tag-area-length-16", ["C11", "C12"], "kernel/cry.cpp", "u8_t *hash = header.getHmac(64);", "u8_t *hash = header.getHmac(16);"),
  ("C13-tag-field-prefilled", ["C13", "C02"], "kernel/fheader.cpp", "memset(padding, 0, sizeof(padding));", "memset(padding, 0xFF, sizeof(padding));"),
+ ("C17-F9-reverted", ["C17"], "valget/getopts.cpp", "    long v = strtol(arg, NULL, 10);\n    return (v == (long)(int)v) ? (int)v : -1;", "    return atoi(arg);"),
  ("C15-F8-reverted", ["C15"], "valget/getopts.cpp", "    optind = 0;", "    optind = 1;"),
  ("C04-wait-ready-if-instead-of-while", ["C04", "C14", "C03"], "kernel/multi_aes/multi_buffergroup.cpp", "  while (state != READY && state != INV)\n    cv_ready.wait(locker);", "  if (state != READY && state != INV)\n    cv_ready.wait(locker);"),
  ("C04-wait-update-if-instead-of-while", ["C04", "C14", "C03"], "kernel/multi_aes/multi_buffergroup.cpp", "  while (state != UPDATING && state != EMPTY)\n    cv_update.wait(locker);", "  if (state != UPDATING && state != EMPTY)\n    cv_update.wait(locker);"),
